@@ -336,6 +336,9 @@ func (x *Exec) StoreVal(st *State, p Value, v Value) {
 	if v.P != nil && !(v.P.Kind == PObj && v.P.Off == 0) && v.P.Kind != PArr {
 		panic(unsupported("interior pointer stored to memory"))
 	}
+	if pi.Kind == PArr || pi.Kind == PElem {
+		x.noteSliceWrite(st, pi.Root, p.L[0], nil, x.curPos)
+	}
 	if pi.Kind == PArr {
 		at := v.T.Underlying().(*types.Array)
 		el := LayoutOf(at.Elem())
